@@ -211,4 +211,52 @@ def exPipeStore : Store :=
 
 def exMapStore : Store := storeOfNodes exNm (staticProgram exMap exNm).2 exMapOracle
 
+/-- a pipeline mapped over an array literal whose body has a call with a RUN-TIME `disabled`
+control (an output of a sibling stage, different per fork), a consumer of the possibly-disabled
+outputs inside the fork, and consumers above that project through the merged outputs -/
+def exDis : Program :=
+  { structs := [("PAIR", [⟨"a", xInt⟩, ⟨"b", xStr⟩])]
+    callables :=
+      [ ("FLAG", .stage [⟨"x", xInt⟩] [⟨"off", ⟨"bool", 0, 0⟩⟩, ⟨"p", xPair⟩]),
+        ("WORK", .stage [⟨"x", xInt⟩, ⟨"p", xPair⟩] [⟨"y", xInt⟩, ⟨"q", xPair⟩]),
+        ("USE", .stage [⟨"ys", ⟨"int", 0, 1⟩⟩, ⟨"qa", ⟨"int", 0, 1⟩⟩] [⟨"r", xInt⟩]),
+        ("INNER", .pipeline [⟨"x", xInt⟩] [⟨"y", xInt⟩, ⟨"q", xPair⟩]
+          [ { id := "FLAG", callee := "FLAG", mapped := false, disabled := none,
+              binds := [⟨"x", false, .self "x" []⟩] },
+            { id := "WORK", callee := "WORK", mapped := false, disabled := some (false, .ref "FLAG" ["off"]),
+              binds := [⟨"x", false, .self "x" []⟩, ⟨"p", false, .ref "FLAG" ["p"]⟩] },
+            { id := "W2", callee := "WORK", mapped := false, disabled := none,
+              binds := [⟨"x", false, .ref "WORK" ["y"]⟩, ⟨"p", false, .ref "WORK" ["q"]⟩] } ]
+          [("y", .ref "W2" ["y"]), ("q", .ref "WORK" ["q"])]),
+        ("TOP", .pipeline [⟨"v", xInt⟩] [⟨"ys", ⟨"int", 0, 1⟩⟩, ⟨"qa", ⟨"int", 0, 1⟩⟩, ⟨"r", xInt⟩]
+          [ { id := "INNER", callee := "INNER", mapped := true, disabled := none,
+              binds := [⟨"x", true, .arr [.lit (.atom "1"), .self "v" [], .lit (.atom "3")]⟩] },
+            { id := "USE", callee := "USE", mapped := false, disabled := none,
+              binds := [⟨"ys", false, .ref "INNER" ["y"]⟩, ⟨"qa", false, .ref "INNER" ["q", "a"]⟩] } ]
+          [("ys", .ref "INNER" ["y"]), ("qa", .ref "INNER" ["q", "a"]), ("r", .ref "USE" ["r"])]) ]
+    top := { id := "TOP", callee := "TOP", mapped := false, disabled := none,
+             binds := [⟨"v", false, .lit (.atom "5")⟩] } }
+
+/-- fork 1 of INNER disables WORK -/
+def exDisOracle : Oracle := fun k =>
+  if k.path == ["TOP", "INNER", "FLAG"] then
+    match k.forks with
+    | [("INNER", .i n)] => some (.obj [("off", .atom (if n == 1 then "true" else "false")),
+        ("p", .obj [("a", .atom (toString (20 + n))), ("b", .atom "\"p\"")])])
+    | _ => none
+  else if k.path == ["TOP", "INNER", "WORK"] then
+    match k.forks with
+    | [("INNER", .i n)] => some (.obj [("y", .atom (toString (10 + n))),
+        ("q", .obj [("a", .atom (toString (30 + n))), ("b", .atom "\"q\"")])])
+    | _ => none
+  else if k.path == ["TOP", "INNER", "W2"] then
+    match k.forks with
+    | [("INNER", .i n)] => some (.obj [("y", .atom (toString (40 + n))), ("q", .null)])
+    | _ => none
+  else if k.path == ["TOP", "USE"] then some (.obj [("r", .atom "99")])
+  else none
+
+def exDisStore : Store :=
+  storeOfNodes exNm (flattenTList [] (staticProgramT exDis exNm).2) exDisOracle
+
 end Proofs.ResolverStatic
